@@ -280,6 +280,43 @@ func runStream(s Stream, property string, seed int64, n int, thorough bool, gmod
 			}
 		}
 	}
+	// A verdict of a live-server scenario can depend on the machine (a timeout under load, a port taken by another
+	// process): each failing scenario is run again, alone, up to two more times; a failure that shows again in either
+	// of them stands, one that never shows again is counted as "unconfirmed" and dropped. (Deterministic breakage fails
+	// every time; a race that fails one run in two is still kept three times out of four.)
+	if iso, ok := s.(Isolated); ok && os.Getenv("VERIF_WORKER") == "" && explicit == nil && len(res.Failures) > 0 {
+		var kept []Failure
+		reruns := 0
+		for _, f := range res.Failures {
+			if reruns >= 12 { // (bounded: beyond a dozen re-runs the rest stands as it is)
+				kept = append(kept, f)
+				continue
+			}
+			confirmed := false
+			for attempt := 0; attempt < 2 && !confirmed; attempt++ {
+				reruns++
+				one := []string{""}
+				runIsolated(s.Name(), []Case{f.Case}, iso.CaseTimeout(), one)
+				r := one[0]
+				if k := strings.Index(r, "\t"); k >= 0 {
+					r = r[:k]
+				}
+				if ok2, _, _ := s.Oracle(f.Case, r); !ok2 {
+					confirmed = true
+				}
+			}
+			if confirmed {
+				kept = append(kept, f)
+			} else {
+				res.Histogram["unconfirmed/"+f.Key]++
+			}
+		}
+		res.FailureCount -= len(res.Failures) - len(kept)
+		res.Failures = kept
+		if res.Failures == nil {
+			res.Failures = []Failure{}
+		}
+	}
 	res.DistinctNontrivial = len(distinct)
 	// samples: first case of up to 6 buckets
 	seen := map[string]bool{}
